@@ -94,6 +94,7 @@ func runC11(c *Ctx) {
 	c11ExitCloses(c)
 	c11Tables(c)
 	c11PerOperationMessage(c)
+	locksReleased(c, pkgTransport)
 }
 
 func c11InitFirst(c *Ctx) {
